@@ -195,6 +195,17 @@ func richStream(r *rand.Rand) *gen.Stream {
 		}
 		pids = append(pids, pid)
 	}
+	if r.IntN(3) == 0 {
+		// conditional access table units on PID 1: private content the demuxer leaves to a custom parser (nothing is delivered)
+		for j := 0; j < 1+r.IntN(3); j++ {
+			body := gen.Bytes(r, 8+r.IntN(200))
+			sec := append([]byte{0x00, 0x01, 0xb0 | byte(len(body)>>8), byte(len(body))}, body...)
+			u := &gen.Unit{PID: 1, Kind: gen.UnitPSI, Payload: sec, TailPad: true}
+			u.PlanChunks(gen.RandomChunks(r, len(sec), 0, 0, true))
+			per[1] = append(per[1], u)
+		}
+		pids = append(pids, 1)
+	}
 	for a := 0; a < 1+r.IntN(2); a++ {
 		pid := uint16(0x100 + a)
 		for j := 0; j < 1+r.IntN(3); j++ {
